@@ -87,7 +87,9 @@ struct Doc {
 };
 
 static std::string build_file(const Doc &d) {
-  std::string t = "[" + d.sec + "]\nfirst=1\n";
+  // the neighbours carry short comments of their own (a writer or getter that re-uses a buffer sized for an
+  // earlier, shorter comment shows at the long one)
+  std::string t = "[" + d.sec + "]\n#c0\nfirst=1 #c1\n";
   if (!d.cb.empty()) {
     size_t p = 0;
     for (;;) {
@@ -317,6 +319,7 @@ static void run_cell(int kind, size_t len, int path, unsigned salt) {
     // create the file relative to its directory (the absolute path may be too long for the kernel)
     std::string full = dir + "/" + fname;
     bool created = false;
+    int deep_fd = -1;
     {
       // walk down with chdir-free openat
       int fd = open(R.c_str(), O_RDONLY | O_DIRECTORY);
@@ -338,9 +341,15 @@ static void run_cell(int kind, size_t len, int path, unsigned salt) {
           if (write(f, body, sizeof body - 1) == (ssize_t)(sizeof body - 1)) created = true;
           close(f);
         }
-        close(fd);
+        deep_fd = fd;
       }
     }
+    struct CloseFd {
+      int &fd;
+      ~CloseFd() {
+        if (fd >= 0) close(fd);
+      }
+    } close_deep{deep_fd};
     VF_CHECK(created, "harness", "could not create the deep file");
     econf_file *kf = (econf_file *)-1;
     econf_err e = econf_readFile(&kf, full.c_str(), "=", "#");
@@ -358,6 +367,35 @@ static void run_cell(int kind, size_t len, int path, unsigned salt) {
       econf_freeFile(kf);
       VF_CHECK(vs == "deep", "wrong-content", "deep file content wrong");
       SAME("econf_getPath of the deep file", ps, full);
+      // the same file named relative to its own directory: the absolute name the library forms is as long
+      int back = open(".", O_RDONLY | O_DIRECTORY);
+      if (back >= 0 && deep_fd >= 0 && fchdir(deep_fd) == 0) {
+        struct Back {
+          int fd;
+          ~Back() {
+            if (fchdir(fd) != 0) perror("fchdir");
+            close(fd);
+          }
+        } goback{back};
+        for (const char *rel : {"f.conf", "./f.conf"}) {
+          econf_file *k2 = (econf_file *)-1;
+          econf_err e2 = econf_readFile(&k2, rel, "=", "#");
+          VF_CHECK(e2 == ECONF_SUCCESS && k2 && k2 != (econf_file *)-1, "read-failed",
+                   "'" << rel << "' read from a working directory of " << dir.size() << " characters (absolute name " << full.size() << " < PATH_MAX) rc=" << e2);
+          char *p2 = econf_getPath(k2);
+          std::string ps2 = p2 ? p2 : "";
+          free(p2);
+          char *v2 = nullptr;
+          econf_getStringValue(k2, nullptr, "marker", &v2);
+          std::string vs2 = v2 ? v2 : "";
+          free(v2);
+          econf_freeFile(k2);
+          VF_CHECK(vs2 == "deep", "wrong-content", "deep file read by relative name: content wrong");
+          SAME("econf_getPath of the deep file read by relative name", ps2, full);
+        }
+        g_case.tag("deep_relative_name");
+      } else if (back >= 0)
+        close(back);
     } else {
       g_case.tag("path_beyond_limit");
       bool handed = kf && kf != (econf_file *)-1;
